@@ -384,6 +384,11 @@ def r5(ctx: Ctx) -> None:
         ctx.check(ok, f, f.node, f"{c} is dispatched to exactly one handler of its own", "one process_*_log(log=<the record>)", ", ".join(hs) or "not dispatched")
         if hs:
             used[hs[0]] = c
+    if not other_ok and not any(handlers.values()):
+        # no record class is selected by an isinstance chain at all: the dispatch is done some other way (a table keyed by
+        # the class, a visitor): where an unknown class ends up there is not followed (seed C10t and its corrected version)
+        ctx.unrec(f, f.node, "an unknown record class is rejected", "records are not dispatched by an isinstance chain: the dispatch mechanism is not modelled")
+        return
     ctx.check(other_ok, f, f.node, "an unknown record class is rejected", "else: raise NotImplementedError", "raises" if other_ok else "falls through")
 
 
